@@ -286,3 +286,29 @@ pub fn timeout_is_violation(prop: &str) -> Option<&'static str> {
 pub fn crash_exit_is_violation(code: Option<i32>) -> bool {
     matches!(code, Some(134 | 139))
 }
+
+
+/// One libFuzzer iteration for property `prop` through the pass-through layer of its
+/// main engine (C01..C05 and C07 have their own fixed byte layouts instead).
+pub fn fuzz_bytes(prop: &str, data: &[u8]) -> Option<(Failure, Value)> {
+    use crate::campaign::run_bytes;
+    let t = Tier::Quick;
+    let known = Known::load(prop);
+    match prop {
+        "C01" | "C02" | "C03" | "C04" | "C05" => crate::props::gc::fuzz_one(leak(prop), data).map(|f| (f, Value::Null)),
+        "C07" => crate::props::asan::fuzz_one(data).map(|f| (f, Value::Null)),
+        "C06" => run_bytes(&CyclesEngine { max_cycles: 120 }, t, data),
+        "C08" => run_bytes(&TwinEngine { kind: TwinKind::SaveLoad }, t, data),
+        "C09" => run_bytes(&PrefixEngine { all_prefixes: false }, t, data),
+        "C10" => run_bytes(&TwinEngine { kind: TwinKind::Clone }, t, data),
+        "C11" => run_bytes(&TreeEngine { extras: false }, t, data),
+        "C12" => run_bytes(&TreeEngine { extras: true }, t, data),
+        "C13" | "C18" | "C20" => run_bytes(&DiEngine { prop: leak(prop) }, t, data),
+        "C14" => run_bytes(&ScriptEngine, t, data),
+        "C15" => run_bytes(&HexEngine, t, data),
+        "C16" => run_bytes(&ConcatEngine { tolerate: known.open.keys().cloned().collect() }, t, data),
+        "C17" => run_bytes(&LabelEngine, t, data),
+        "C19" => run_bytes(&MultiEngine, t, data),
+        _ => None,
+    }
+}
